@@ -82,7 +82,7 @@ def parseAcc (s : String) : Option Acc :=
     if r.isEmpty || !r.all isDigit then none
     else
       let n := (takeNat r 0).1
-      if c = 'f' then some (.fld n) else if c = 'i' then some (.idx n)
+      if c = 'h' then some (.h n) else if c = 'f' then some (.fld n) else if c = 'i' then some (.idx n)
       else if c = 'k' then some (.kfld n) else if c = '@' then some (.key n) else none
   | [] => none
 
@@ -105,7 +105,9 @@ def strictPrefix (a b : Chain) : Bool :=
 def lastSeen (log : List (Nat × Seen)) (e : Nat) : Option Seen :=
   (log.reverse.find? (·.1 = e)).map (·.2)
 
-def chainOf (st : St) (e : Nat) : Chain := match st.effs[e]? with | some x => x.chain | none => []
+/-- the logical chain of reader `e` (a handle stands for the chain it was made from) -/
+def chainOf (st : St) (e : Nat) : Chain :=
+  match st.effs[e]? with | some x => expandH st.handles x.chain | none => []
 
 /-- length of the first prefix of `c` that addresses an `Option` field which `c` then unwraps -/
 def optPrefix (v : Val) (c : Chain) : Option Nat :=
@@ -129,8 +131,10 @@ def relChainOf (st : St) (e : Nat) : Chain :=
   match st.effs[e]? with
   | some x =>
     match x.kind with
-    | .omap => match optPrefix st.val x.chain with | some n => x.chain.take n | none => x.chain
-    | _ => x.chain
+    | .omap =>
+      let lc := expandH st.handles x.chain
+      match optPrefix st.val lc with | some n => lc.take n | none => lc
+    | _ => expandH st.handles x.chain
   | none => []
 def isImm (st : St) (e : Nat) : Bool := match st.effs[e]? with | some x => x.imm | none => false
 
@@ -218,8 +222,9 @@ def hasImm (st : St) : Bool := st.effs.any (·.imm)
 def showWrote : Wrote → String
   | .done => "done" | .absent => "absent" | .none => "none" | .panic => "panic"
 
-def doWrite (d : DS) (st : St) (op : Op) (c : Chain) (isPatch : Bool) (newv : Option Val)
+def doWrite (d : DS) (st : St) (op : Op) (c0 : Chain) (isPatch : Bool) (newv : Option Val)
     (era : Option Nat := none) : DS × String :=
+  let c := expandH st.handles c0
   let old := logicalGet st.val c
   let r := stepOp st op
   if r.1.panicked then ({ d with st := some r.1, dead := true }, "panic ## fail stale-keys")
@@ -235,6 +240,19 @@ def doWrite (d : DS) (st : St) (op : Op) (c : Chain) (isPatch : Bool) (newv : Op
         else [c]
       | _ => []
     ({ d with st := some r.1, ever := ever }, render r.1 s!"w={showWrote r.2} " (judgeWrite st r.1 ever ws c isPatch era))
+
+/-- a chain as written in an op (`h<id>` only at the head, and only an existing handle) and its logical chain -/
+def parseChainH (st : St) (s : String) : Option (Chain × Chain) :=
+  match parseChain s with
+  | some c =>
+    let okHead := match c with
+      | .h id :: _ => decide (id < st.handles.length)
+      | _ => true
+    if okHead && (c.drop 1).all (fun a => match a with | .h _ => false | _ => true)
+    then some (c, expandH st.handles c) else none
+  | none => none
+
+def viaHandle (c : Chain) : Bool := match c with | .h _ :: _ => true | _ => false
 
 def vecLen (st : St) (c : Chain) : Option Nat :=
   match logicalGet st.val c with
@@ -257,15 +275,15 @@ def eraOf (c : Chain) (how : String) : Option Nat :=
   | none => none
 
 /-- `set|upd|wr|patch <chain> <value> [field<k>|arc<k>]` -/
-def writeOp (d : DS) (st : St) (kind : String) (c : Chain) (a : String) (eraS : Option String) : DS × String :=
+def writeOp (d : DS) (st : St) (kind : String) (c lc : Chain) (a : String) (eraS : Option String) : DS × String :=
   let era : Option (Option Nat) := match eraS with
     | none => some none
-    | some h => (eraOf c h).map some
+    | some h => if viaHandle c then none else (eraOf c h).map some
   match parseValStr a, era with
   | some v, some era =>
-    if !varsMatch st.val c then (d, "bad-op")
+    if !varsMatch st.val lc then (d, "bad-op")
     else if kind == "patch" then
-      match logicalGet st.val c with
+      match logicalGet st.val lc with
       | .val (.node .enumv _) => (d, "bad-op")
       | _ => if hasImm st then (d, "unsupported") else doWrite d st (.patch c v era) c true (some v) era
     else doWrite d st (.set c v era) c false none era
@@ -283,11 +301,11 @@ def step (d : DS) (line : String) : DS × String :=
       | none => (d, "bad-op")
     | _, none => (d, "bad-op")
     | [kind, c], some st =>
-      match parseChain c with
+      match parseChainH st c with
       | none => (d, "bad-op")
-      | some c =>
+      | some (c, lc) =>
         if kind == "krev" then
-          if (vecLen st c).isSome && endsKeyed c then doWrite d st (.krev c) c false none else (d, "bad-op")
+          if (vecLen st lc).isSome && endsKeyed lc then doWrite d st (.krev c) c false none else (d, "bad-op")
         else if kind == "poll" then
           -- `poll <i>`: here `c` failed to parse as a chain unless it is `-`; handled below
           (d, "bad-op")
@@ -297,30 +315,36 @@ def step (d : DS) (line : String) : DS × String :=
       if r.1.panicked then ({ d with st := some r.1, dead := true }, "panic ## fail stale-keys")
       else ({ d with st := some r.1 }, render r.1 "" (judgeRuns r.1))
     | [kind, c, a], some st =>
-      match parseChain c with
+      match parseChainH st c with
       | none => (d, "bad-op")
-      | some c =>
-        if kind == "set" || kind == "upd" || kind == "wr" || kind == "patch" then writeOp d st kind c a none
+      | some (c, lc) =>
+        if kind == "set" || kind == "upd" || kind == "wr" || kind == "patch" then writeOp d st kind c lc a none
+        else if kind == "hnew" then
+          -- `hnew <chain> field|arc`: a long-lived handle of the accessor at the end of the chain
+          if (a == "field" || a == "arc") && !viaHandle c && !endsKeyed lc && varsMatch st.val lc then
+            let r := stepOp st (.hnew c)
+            ({ d with st := some r.1 }, s!"h={st.handles.length}")
+          else (d, "bad-op")
         else if kind == "kpush" then
-          match parseValStr a, vecLen st c with
-          | some v, some _ => if endsKeyed c then doWrite d st (.kpush c v) c false none else (d, "bad-op")
+          match parseValStr a, vecLen st lc with
+          | some v, some _ => if endsKeyed lc then doWrite d st (.kpush c v) c false none else (d, "bad-op")
           | _, _ => (d, "bad-op")
         else if kind == "kremove" then
-          match a.toNat?, vecLen st c with
-          | some i, some n => if i < n && endsKeyed c then doWrite d st (.kremove c i) c false none else (d, "bad-op")
+          match a.toNat?, vecLen st lc with
+          | some i, some n => if i < n && endsKeyed lc then doWrite d st (.kremove c i) c false none else (d, "bad-op")
           | _, _ => (d, "bad-op")
         else (d, "bad-op")
     | [kind, c, a, era], some st =>
       if kind == "kswap" then
-        match parseChain c, a.toNat?, era.toNat? with
-        | some c, some i, some j =>
-          match vecLen st c with
-          | some n => if i < n && j < n && endsKeyed c then doWrite d st (.kswap c i j) c false none else (d, "bad-op")
+        match parseChainH st c, a.toNat?, era.toNat? with
+        | some (c, lc), some i, some j =>
+          match vecLen st lc with
+          | some n => if i < n && j < n && endsKeyed lc then doWrite d st (.kswap c i j) c false none else (d, "bad-op")
           | none => (d, "bad-op")
         | _, _, _ => (d, "bad-op")
       else if kind == "set" || kind == "upd" || kind == "wr" || kind == "patch" then
-        match parseChain c with
-        | some c => writeOp d st kind c a (some era)
+        match parseChainH st c with
+        | some (c, lc) => writeOp d st kind c lc a (some era)
         | none => (d, "bad-op")
       else (d, "bad-op")
     | _, _ => (d, "bad-op")
@@ -328,9 +352,10 @@ def step (d : DS) (line : String) : DS × String :=
 /-- `eff|imm <chain> [how]`: how = get|read|with|track (the same reader for the model), map|invert
 (`OptionStoreExt`), iter (keyed: `for` over the field; else `iter_unkeyed`), field<k>|arc<k> (the accessor
 after k steps converted to `Field` / `ArcField` when the reader is created) -/
-def readerOp (d : DS) (st : St) (imm : Bool) (c : Chain) (how : String) : DS × String :=
+def readerOp (d : DS) (st : St) (imm : Bool) (c0 : Chain) (how : String) : DS × String :=
+  let c := expandH st.handles c0
   let go (kind : RKind) (pre : Option Nat) : DS × String :=
-    let r := stepOp st (.reader c kind imm pre)
+    let r := stepOp st (.reader c0 kind imm pre)
     if r.1.panicked then ({ d with st := some r.1, dead := true }, "panic ## fail stale-keys")
     else ({ d with st := some r.1, ever := updEver d.ever r.1 }, render r.1 "" (judgeRuns r.1))
   let optAt := optPrefix st.val c
@@ -350,7 +375,7 @@ def readerOp (d : DS) (st : St) (imm : Bool) (c : Chain) (how : String) : DS × 
       | .val (.node .vec _) => go .iterU none
       | _ => (d, "bad-op")
   else
-    match eraOf c how with
+    match (if viaHandle c0 then none else eraOf c how) with
     | some k => go .plain (some k)
     | none => (d, "bad-op")
 
@@ -364,16 +389,22 @@ def step' (d : DS) (line : String) : DS × String :=
       if r.1.panicked then ({ d with st := some r.1, dead := true }, "panic ## fail stale-keys")
       else ({ d with st := some r.1 }, render r.1 "" (judgeRuns r.1))
     | none => (d, "bad-op")
+  | ["race", k, r], false, _ =>
+    -- k threads doing the first tracked access to fresh paths together: in the model `get_trigger` is the
+    -- identity on paths (one trigger per path by construction), every reader is notified
+    match k.toNat?, r.toNat? with
+    | some k, some r => if 2 ≤ k && k ≤ 8 && 1 ≤ r && r ≤ 200 then (d, "raced ## ok") else (d, "bad-op")
+    | _, _ => (d, "bad-op")
   | [kind, c], false, some st =>
     if kind == "eff" || kind == "imm" || kind == "effi" || kind == "immi" then
-      match parseChain c with
-      | some c => readerOp d st (kind.startsWith "imm") c (if kind.endsWith "i" then "iter" else "get")
+      match parseChainH st c with
+      | some (c, _) => readerOp d st (kind.startsWith "imm") c (if kind.endsWith "i" then "iter" else "get")
       | none => (d, "bad-op")
     else step d line
   | [kind, c, how], false, some st =>
     if kind == "eff" || kind == "imm" then
-      match parseChain c with
-      | some c => readerOp d st (kind == "imm") c how
+      match parseChainH st c with
+      | some (c, _) => readerOp d st (kind == "imm") c how
       | none => (d, "bad-op")
     else step d line
   | _, _, _ => step d line
